@@ -875,6 +875,8 @@ def yield_value_is_event(fi, v):
                 continue
             if isinstance(val, ast.Name):
                 continue
+            if isinstance(val, ast.Attribute) and self_attr(val) is not None:
+                continue          # a local alias of an event held in an attribute (`ev = self.resume_event; yield ev`)
             if isinstance(val, ast.Constant) and val.value is None:
                 continue          # resetting the holder after use
             return False, f'`{name}` is assigned `{ast.unparse(val)[:50]}`, which is not an event'
